@@ -42,6 +42,9 @@ class _NoInline(Policy):
 
 def run(ctx):
     chk, fb = ctx.check, ctx.fb
+    # independent of the tokenizer's shape: decided first, so that an unrecognised tokenizer cannot hide them
+    number_literal(chk, fb)
+    boundary_helper(chk, fb)
     chk.rule("R13.1", "operator match predicate = available AND equal AND (binary OR at_end OR NOT identifier-continued)")
     chk.rule("R13.2", "operator list sorted by name descending before a first-match search")
     chk.rule("R13.3", "is_operator_binary: both roles -> binary iff left in {Num, Var, ')'}; binary-only -> Err after Op else binary; otherwise unary")
@@ -114,23 +117,43 @@ def run(ctx):
 
     # ---------------- tokenizer closures ------------------------------------------
     tk = fb.one_body(lambda b: b["kind"] == "Fn" and b["path"].endswith("parser::tokenize_and_analyze"), "tokenize_and_analyze")
-    closures, _ = order.closures_created(fb, tk, [Sym("text"), Sym("ops_in"), Sym("is_numeric")])
-    # the closure that searches the operator list: captures a sorted list and calls Iterator::find
+    closures, tkpaths = order.closures_created(fb, tk, [Sym("text"), Sym("ops_in"), Sym("is_numeric")])
+    # the code that searches the operator list: a closure of the tokenizer that captures the sorted list and calls Iterator::find,
+    # or a private function of the parser that is handed the list
     finder = None
+    fbody, fargs = None, None
     for cp, cv in closures.items():
         b = fb.bodies[cp]
         if any(mir.callee_path(t) == "std::iter::Iterator::find" for _, t in mir.calls(b)):
             finder = cv
+            fbody, fargs = b, [cv, Sym("off")]
     if finder is None:
-        chk.violation("R13.2", "anchor:finder", "no closure searching the operator list with Iterator::find in the tokenizer")
+        for p_ in tkpaths:
+            for e in p_.events:
+                if e[0] != "call" or not e[1].startswith("parser::") or e[1] not in fb.bodies or fbody is not None:
+                    continue
+                hb = fb.bodies[e[1]]
+                if hb["arg_count"] != len(e[2]) or not any(mir.callee_path(t) == "std::iter::Iterator::find" for _, t in mir.calls(hb)):
+                    continue
+                if not any(re.match(r"^&('\w+ )?str$", hb["locals"][i_]["ty"]) for i_ in range(1, hb["arg_count"] + 1)) or \
+                        not any("operators::Operator<" in hb["locals"][i_]["ty"] for i_ in range(1, hb["arg_count"] + 1)):
+                    continue        # the operator search looks at the text and at the operator list
+                args_ = []
+                for i_, a_ in enumerate(e[2], 1):
+                    ty_ = hb["locals"][i_]["ty"]
+                    args_.append(Sym("text") if re.match(r"^&('\w+ )?str$", ty_) else Sym("off") if ty_ == "usize" else a_)
+                fbody, fargs = hb, args_
+    if fbody is None:
+        chk.violation("R13.2", "anchor:finder", "no closure / private function searching the operator list with Iterator::find in the tokenizer")
         return
-    ps = Interp(fb, _NoInline()).run(fb.bodies[finder.path], [finder, Sym("off")])
+    fspan = loc(fbody["span"])
+    ps = [p_ for p_ in Interp(fb, _NoInline()).run(fbody, fargs) if p_.status != "unreachable"]
     if len(ps) != 1 or ps[0].status != "return":
-        chk.unrecognised("R13.2", "finder", "operator search is not a single find(..)", loc(fb.bodies[finder.path]["span"]))
+        chk.unrecognised("R13.2", "finder", "operator search is not a single find(..)", fspan)
         return
     res = ps[0].result
     if not (isinstance(res, App) and res.fn == "std::iter::Iterator::find" and len(res.args) == 2):
-        chk.unrecognised("R13.2", "finder", "operator search result is not Iterator::find(list, predicate): %s" % show(res)[:120], loc(fb.bodies[finder.path]["span"]))
+        chk.unrecognised("R13.2", "finder", "operator search result is not Iterator::find(list, predicate): %s" % show(res)[:120], fspan)
         return
     src, pred = res.args
     # the sorted list may come out of a private helper (`let ops = sort_ops(ops_in)`): look through it
@@ -146,7 +169,7 @@ def run(ctx):
     s_src = show(src)
     m = re.match(r"^core::slice::<impl \[T\]>::iter\(mut:(core|std)::slice::<impl \[T\]>::(sort\w*)\((.*)\)\)$", s_src)
     if not m:
-        chk.violation("R13.2", "unsorted", "the list searched for operators is not the result of a sort: %s" % s_src[:160], loc(fb.bodies[finder.path]["span"]))
+        chk.violation("R13.2", "unsorted", "the list searched for operators is not the result of a sort: %s" % s_src[:160], fspan)
     else:
         meth = m.group(2)
         comp = None
@@ -251,7 +274,7 @@ def run(ctx):
     # ---------------- R13.4 regexes -----------------------------------------------------
     pats = {}
     for p, b in fb.bodies.items():
-        if "tokenize_and_analyze" in p and "__static_ref_initialize" in p:
+        if "parser::" in p and "RE_VAR_NAME" in p and "__static_ref_initialize" in p and "is_literal" not in p:
             for _, t in mir.calls(b):
                 if mir.callee_path(t) == "regex::Regex::new" and t["args"]:
                     c = mir.trace_const(b, t["args"][0])
@@ -308,8 +331,6 @@ def run(ctx):
             else:
                 chk.violation("R13.5", "var-name:%d" % nvar, "a variable token is not named by exactly the matched text: %s" % term[:200], loc(st["span"]))
     chk.floor("R13.5", "variable token sites", nvar, 2)
-    number_literal(chk, fb)
-    boundary_helper(chk, fb)
 
 
 def number_literal(chk, fb, RID="R13.6"):
